@@ -685,7 +685,7 @@ func reqLineFromValue(v interface{}) string {
 		if r.Error != nil {
 			e = &r.Error.ErrorMsg
 		}
-		return reqSigError(r.ParticipantId, e, r.CreatedAt).line
+		return reqSigError(r.ParticipantId, e, r.CreatedAt, r.BatchID).line
 	case requests.SigningBatchProposalStartRequest:
 		return reqStart(r.BatchID, r.ParticipantId, r.CreatedAt, r.SigningTasks).line
 	case requests.SigningProposalBatchPartialSignRequests:
